@@ -205,14 +205,19 @@ impl<W> Encoder<W> {
 
             // gather the sizes of all mipmaps to generate
             let mut mipmap_sizes: Vec<Size> = Vec::with_capacity(16);
-            while let Some(mipmap) = self.iter.current() {
+            let mut lookahead = self.iter.clone();
+            while let Some(mipmap) = lookahead.current() {
                 if !mipmap.is_mipmap() {
                     break;
                 }
                 mipmap_sizes.push(mipmap.size());
-                self.iter.advance();
+                lookahead.advance();
             }
 
+            // Only advance past a mipmap after it has been written. Otherwise,
+            // a failed mipmap would be counted as written and `finish` would
+            // accept an incomplete file.
+            let iter = &mut self.iter;
             let mut level = 0;
             self.mipmap_cache
                 .generate(image, &mipmap_sizes, self.mipmaps, |mipmap| {
@@ -223,7 +228,9 @@ impl<W> Encoder<W> {
                         self.format,
                         Some(&mut progress.sub_range(get_level_progress_range(level))),
                         &self.options,
-                    )
+                    )?;
+                    iter.advance();
+                    Ok(())
                 })?;
         }
 
